@@ -39,6 +39,20 @@ type faultWriter struct {
 	n        int
 	accepted strings.Builder
 	after    int // calls made after the failing one
+	afterBuf []string
+	err      error // what the failing calls return (errWriter unless set)
+}
+
+// errList is a writer error of an unhashable type (a list of messages)
+type errList []string
+
+func (e errList) Error() string { return strings.Join(e, "; ") }
+
+func (w *faultWriter) failure() error {
+	if w.err != nil {
+		return w.err
+	}
+	return errWriter
 }
 
 func (w *faultWriter) Write(b []byte) (int, error) {
@@ -49,16 +63,17 @@ func (w *faultWriter) Write(b []byte) (int, error) {
 	}
 	if w.n > w.k {
 		w.after++
+		w.afterBuf = append(w.afterBuf, string(b))
 		if w.once {
 			return len(b), nil
 		}
-		return 0, errWriter
+		return 0, w.failure()
 	}
 	if w.partial && len(b) > 1 {
 		w.accepted.Write(b[:len(b)/2])
-		return len(b) / 2, errWriter
+		return len(b) / 2, w.failure()
 	}
-	return 0, errWriter
+	return 0, w.failure()
 }
 
 type c20Case struct {
@@ -117,6 +132,11 @@ var c20Fault = hx.Define("c20.write-faults", func(c *c20Case, s *hx.Sub) *hx.Vio
 				t2 := 0
 				e2 := c20Engine(&t2)
 				fw := &faultWriter{k: k, partial: partial, once: once}
+				// every other fault point fails with an error value of an unhashable type
+				list := (k+mode)%2 == 1
+				if list {
+					fw.err = errList{errWriter.Error(), "second message"}
+				}
 				var ferr liquid.SourceError
 				pi := hx.Guard(func() {
 					if entry == "FRender" {
@@ -142,7 +162,13 @@ var c20Fault = hx.Define("c20.write-faults", func(c *c20Case, s *hx.Sub) *hx.Vio
 				if pi := hx.Guard(func() { msg, cause = ferr.Error(), ferr.Cause(); _ = ferr.Path(); _ = ferr.LineNumber() }); pi != nil {
 					return hx.V("c20:error-accessor-panic@"+pi.Site, "%s returned an error whose accessors panic: %v", desc, pi)
 				}
-				if !strings.Contains(msg, errWriter.Error()) || !reaches(cause, func(e error) bool { return e == errWriter }) {
+				isFailure := func(e error) bool {
+					if l, ok := e.(errList); ok {
+						return list && len(l) == 2
+					}
+					return !list && e == errWriter
+				}
+				if !strings.Contains(msg, errWriter.Error()) || !reaches(cause, isFailure) {
 					return hx.V("c20:failure-not-carried", "%s returned %q (cause %v), which does not carry the writer's failure: the message is to name it and the cause chain is to lead to the writer's error value", desc, msg, cause)
 				}
 				if !strings.HasPrefix(full, fw.accepted.String()) {
@@ -155,6 +181,14 @@ var c20Fault = hx.Define("c20.write-faults", func(c *c20Case, s *hx.Sub) *hx.Vio
 				}
 				if t2 > limit {
 					return hx.V("c20:render-continued", "%s: %d counting filters had been evaluated when the call returned; a fault-free render has evaluated %d by the write after next: rendering did not stop", desc, t2, limit)
+				}
+				// whatever is still handed to the writer continues the fault-free output: it is the next chunk, not
+				// something written before or a second copy of what just failed
+				if fw.after == 1 && k+1 < W && fw.afterBuf[0] != rec.calls[k+1] {
+					return hx.V("c20:writes-after-failure", "%s: after the failure the writer was handed %q; the chunk that follows in a fault-free render is %q", desc, fw.afterBuf[0], rec.calls[k+1])
+				}
+				if fw.after == 1 && k+1 >= W {
+					return hx.V("c20:writes-after-failure", "%s: after the failure of the last write the writer was handed %q", desc, fw.afterBuf[0])
 				}
 				if fw.after > 1 {
 					return hx.V("c20:writes-after-failure", "%s: %d further Write calls were made after the failure", desc, fw.after)
